@@ -738,3 +738,19 @@ Definition doc_fine_vis (S : tsdoc) (D : opdoc) : bool :=
   && forallb (fun o => var_usage_strict_on S o (vis_op_sites S D o)
                        && forallb site_syntax_ok (vis_op_sites S D o ++ op_const_sites o)
                        && match sp_root S (op_type o) with Some t => is_object t | None => false end) (doc_ops D).
+
+(** what the grammar guarantees: a selection set that is written is not empty (used by the subscription rule) *)
+Fixpoint sel_nonempty (x : selection) : bool :=
+  match x with
+  | SField _ _ _ _ (Some (SelSet _ l)) => match l with [] => false | _ => true end && forallb sel_nonempty l
+  | SInline _ _ _ (SelSet _ l) => match l with [] => false | _ => true end && forallb sel_nonempty l
+  | _ => true
+  end.
+Definition selset_nonempty (ss : selset) : bool :=
+  match selset_sels ss with [] => false | _ => true end && forallb sel_nonempty (selset_sels ss).
+Definition selsets_nonempty (D : opdoc) : bool :=
+  forallb (fun d => match d with
+                    | DOp o => selset_nonempty (op_sel o)
+                    | DFrag f => selset_nonempty (fr_sel f)
+                    | DImport _ => true
+                    end) (od_defs D).
